@@ -600,7 +600,11 @@ def combos(ctx):
     three = [("cas3", "cas4", "pack"), ("cas3", "pack", "read"), ("rm", "pack", "read"), ("cas3", "rm", "read"),
              ("set3", "pack", "pack"), ("cas3", "rmU", "read"), ("set3", "del", "read")]
     seq2 = [(("cas3", "read"), ("pack",)), (("pack", "read"), ("cas3",)), (("rm", "read"), ("pack",)),
-            (("cas3", "rm"), ("pack", "read"))]
+            (("cas3", "rm"), ("pack", "read")),
+            # the other actor's update is packed away before the first actor takes its lock: the loose file is
+            # gone again, only packed-refs knows the new value
+            (("add3",), ("add4", "pack")), (("add3",), ("set4", "pack")), (("cas3",), ("cas4", "pack")),
+            (("rm",), ("cas3", "pack")), (("casStale",), ("set4", "pack")), (("add3", "read"), ("add4", "pack"))]
     out = []
     for layout in LAYOUTS:
         for c in two:
